@@ -14,6 +14,9 @@ CHECKS = {
  "C05": dict(level="exploration", technique="exhaustive enumeration of operator tables x all operator chains up to a bound, parsed by the real runtime; tree compared with precedence climbing",
    text="All 756 operator tables x every chain of up to 4 (quick) / 5 (thorough) operators and single parenthesisations: the tree built from the real reduce sequence must be the precedence-climbing tree.",
    note="Trusted: precedence-climbing reference in cmd/loxmc/c05.go. D2 (equal-level @right groups left) is a recorded known finding with a predicate.", ref="DESIGN.md section C05"),
+ "C09": dict(level="model_checking", technique="bounded exhaustive enumeration of @error grammars x all strings (tokens + lexer ERROR) up to a bound + pumped variants, on the real runtime with exact non-termination criteria; Earley viability oracle",
+   text="Every conflict-free grammar of the @error spaces is run on every input up to the bound (and pumped inputs) on the real template code; termination is decided exactly (repeated configuration / pumping / _recover inner-loop bound), and verdict, blamed token and consumed symbols are compared with an Earley reference.",
+   note="Trusted: internal/cfgref Earley. The blamed-token oracle applies to reduced grammars; when the Error for the first bad token is still on the stack at the first delivery (right-nested error productions, bottom-up order) that is accepted and counted. The generic action never calls recoverLookahead.", ref="DESIGN.md section C09, 2.4"),
 }
 
 NA_REASON = "check not built yet (work in progress; see DESIGN.md for the plan)"
